@@ -6,7 +6,12 @@
 // lemmas written from SEMI E37 and the property statements, not from the code they specify.
 package hsmsss
 
-import "github.com/arloliu/go-secs/v2/hsms"
+import (
+	"time"
+
+	"github.com/arloliu/go-secs/v2/hsms"
+	"github.com/arloliu/go-secs/v2/secs2"
+)
 
 // --- clause-language prelude (used by the verifier symbolically and by replay tests at run time) ---
 
@@ -342,3 +347,44 @@ func specIsCtl(m hsms.Message) bool {
 //@ emits fn:linktestCancel
 //@ ensures [cleared]   t.linktestCancel == nil
 //@ ensures [cancelled] (old(t.linktestCancel) != nil) == (zzCalls("fn:linktestCancel") == 1) && zzCalls("fn:linktestCancel") <= 1
+
+// ---- C04: the frame reader. conn.Read follows the io.Reader contract (0 <= n <= len(p)); everything else about
+// the connection is arbitrary. `started` says "a byte of the current frame has been read": while it is false a
+// read waits with no deadline (idle link), from then on every read is preceded by a fresh T8 deadline.
+
+func zzRecv[T any](name string) T { panic("spec only") }
+
+//@ func readN
+//@ nosafety nil-deref nil-iface
+//@ requires started != nil
+//@ modifies buf, started
+//@ emits net.(Conn).Read, net.(Conn).SetReadDeadline, fn:now
+//@ loop 1 invariant [range]    0 <= read && read <= len(buf)
+//@ loop 1 invariant [flight]   (read > 0 ==> *started) && (old(*started) ==> *started) && (read == 0 ==> *started == old(*started))
+//@ loop 1 invariant [noread]   len(buf) == 0 ==> zzCalls("net.(Conn).Read") == 0
+//@ loop 1 preserves [idle]     !old(*started) ==> zzCalls("fn:now") == 0 && zzCalls("net.(Conn).SetReadDeadline") == 1 &&
+//@                             zzArg[time.Time]("net.(Conn).SetReadDeadline", 0) == time.Time{}
+//@ loop 1 preserves [t8]       old(*started) ==> zzCalls("fn:now") == 1 && zzCalls("net.(Conn).SetReadDeadline") == 1
+//@ loop 1 preserves [armfirst] zzCalls("net.(Conn).Read") == 1 && zzSeq("net.(Conn).SetReadDeadline") < zzSeq("net.(Conn).Read")
+//@ loop 1 preserves [inflight] *started == (old(*started) || zzRet[int]("net.(Conn).Read") > 0)
+//@ loop 1 preserves [progress] read >= old(read) && (read > old(read)) == (zzRet[int]("net.(Conn).Read") > 0)
+//@ ensures [sticky]  old(*started) ==> *started
+//@ ensures [started] result == nil && len(buf) > 0 ==> *started
+//@ ensures [empty]   len(buf) == 0 ==> result == nil && zzCalls("net.(Conn).Read") == 0 && *started == old(*started)
+
+//@ func (*transport).readFrame
+//@ nosafety nil-deref nil-iface
+//@ noframe
+//@ requires t != nil
+//@ emits hsmsss.readN, fn:allocFrame, net.(Conn).Read, net.(Conn).SetReadDeadline, fn:now
+//@ ensures [twice]  zzCalls("hsmsss.readN") <= 2
+//@ ensures [ok]     result1 == nil ==> zzCalls("fn:allocFrame") == 1 && zzCalls("hsmsss.readN") == 2 &&
+//@                  zzArg[int]("fn:allocFrame", 0) >= 10 && zzArg[int]("fn:allocFrame", 0) <= secs2.MaxByteSize
+//@ ensures [cap]    zzCalls("fn:allocFrame") <= 1 && (zzCalls("fn:allocFrame") == 1 ==>
+//@                  zzArg[int]("fn:allocFrame", 0) >= 10 && zzArg[int]("fn:allocFrame", 0) <= secs2.MaxByteSize)
+//@ ensures [nil]    result1 != nil ==> result0 == nil
+
+var (
+	_ = time.Time{}
+	_ = secs2.MaxByteSize
+)
